@@ -9,8 +9,8 @@ import CopVerif.Props.C17b
 (`Edge._identify_eds_ing`, `Edge.get_conditional_uni`, `Edge.get_child_edge`, `Edge.get_likelihood`,
 `Tree.get_likelihood`, `Tree.prepare_next_tree`, `Tree.get_adjacent_matrix`) and `vine.py` (`get_likelihood`,
 `_sample_row`) on every run.  This file proves,
-for ALL inputs, that the generated definitions equal the hand model `Model/VineFlow.lean` (`gen_*_eq`), so every
-theorem of `Props/C17.lean` / `C17b.lean` transfers; the main ones are restated over the generated definitions,
+for ALL inputs, that the generated definitions equal the hand model `Model/VineFlow.lean` (`gen_*_eq`), so
+every theorem of `Props/C17.lean` / `C17b.lean` transfers; the main ones are restated over the generated definitions,
 with the two recorded findings reproduced BY the generated code (`…_counterexample`, by evaluation).
 A change of an index (`U[0]`/`U[1]`, `L`/`R`, `parents[0]`/`[1]`, row/column of a cell), of a set operation, of the
 operand order of a pair-copula call or of the 0/1 correction breaks a `gen_*_eq` bridge.
